@@ -30,8 +30,9 @@ BASE_ENV = {
 
 
 class Launch:
-    def __init__(self, key, n, argv, env=None, meta=None, timeout=None):
+    def __init__(self, key, n, argv, env=None, meta=None, timeout=None, kill_at=None):
         self.key, self.n, self.argv, self.env, self.meta, self.timeout = key, int(n), list(argv), dict(env or {}), meta, timeout
+        self.kill_at = kill_at        # absolute time.time() after which the launch is killed whatever its own timeout says
 
 
 class Result:
@@ -135,7 +136,7 @@ def run_box(launches, root, jobs=8, timeout=30.0, deadline=None, confirm=True, o
             l, h, res = item
             lim = l.timeout or timeout
             rc = h['p'].poll()
-            to = rc is None and time.time() - h['t0'] > lim
+            to = rc is None and (time.time() - h['t0'] > lim or (getattr(l, 'kill_at', None) is not None and time.time() > l.kill_at))
             if rc is None and not to:
                 continue
             if to:
